@@ -3,6 +3,8 @@
 package generator
 
 import (
+	"os"
+	"path/filepath"
 	"reflect"
 
 	"github.com/go-openapi/analysis"
@@ -219,4 +221,60 @@ func VerifC07Mime() {
 	vMapOrderSite(-1)
 	vCover("looked-up")
 	vAssert(ok1 == ok2 && n1 == n2, "the serializer picked for a media type depends on map iteration order")
+}
+
+func init() { vRegister("VerifC07XOrderIsolation", VerifC07XOrderIsolation) }
+
+// C07 (no shared state between runs): the amended copy of the spec that --keep-spec-order works
+// on belongs to the run that made it. Two preparations - of specs that happen to share their
+// file name - never hand out the same path, and the second one leaves the first one's file as it was.
+func VerifC07XOrderIsolation() {
+	sameBase := vBool2("sameFileName")
+	var pathA, pathB string
+	if vSymbolic() {
+		vFSInit()
+		pathA, pathB = "/specs/a/swagger.yml", "/specs/b/swagger.yml"
+		if !sameBase {
+			pathB = "/specs/b/other.yml"
+		}
+		vStubReturn("github.com/go-openapi/swag.LoadFromFileOrHTTP", []byte("x"), nil)
+		vStubReturn("github.com/go-swagger/go-swagger/generator.BytesToYAMLv2Doc", nil, nil)
+		vStubReturnN("gopkg.in/yaml.v2.Marshal", 0, []byte("document of the first run"), nil)
+		vStubReturnN("gopkg.in/yaml.v2.Marshal", 1, []byte("document of the second run"), nil)
+	} else {
+		root, err := os.MkdirTemp("", "verifc07")
+		if err != nil {
+			panic(err)
+		}
+		defer os.RemoveAll(root)
+		_ = os.MkdirAll(filepath.Join(root, "a"), 0o755)
+		_ = os.MkdirAll(filepath.Join(root, "b"), 0o755)
+		pathA = filepath.Join(root, "a", "swagger.yml")
+		pathB = filepath.Join(root, "b", "swagger.yml")
+		if !sameBase {
+			pathB = filepath.Join(root, "b", "other.yml")
+		}
+		_ = os.WriteFile(pathA, []byte("swagger: '2.0'\ninfo: {title: first, version: '1'}\npaths: {}\n"), 0o600)
+		_ = os.WriteFile(pathB, []byte("swagger: '2.0'\ninfo: {title: second, version: '2'}\npaths: {}\n"), 0o600)
+	}
+	read := func(p string) string {
+		if vSymbolic() {
+			s, _ := vFSRead(p)
+			return s
+		}
+		b, _ := os.ReadFile(p)
+		return string(b)
+	}
+	outA := WithAutoXOrder(pathA)
+	before := read(outA)
+	outB := WithAutoXOrder(pathB)
+	after := read(outA)
+	vCover("prepared")
+	if !vSymbolic() {
+		defer os.RemoveAll(filepath.Dir(outA))
+		defer os.RemoveAll(filepath.Dir(outB))
+	}
+	vAssert(outA != outB, "two preparations of different specs share one working file")
+	vAssert(before != "" && before == after, "preparing a second spec changed the working copy of the first one")
+	vAssert(read(outB) != before, "the second run works on the first run's document")
 }
